@@ -40,7 +40,7 @@ let show_queue (q : pqueue) : string =
   let l = List.sort (fun (a, _) (b, _) -> compare a b) l in
   String.concat "&" (List.map (fun (k, p) -> k ^ "=" ^ p) l)
 
-let show_records (recs : (BinNums.coq_N * tuples) list) : string =
+let show_records (recs : (BinNums.coq_N * (rdata * BinNums.coq_N) list) list) : string =
   let l = List.map (fun (t, ts) -> (int_of_n t, ts)) recs in
   let l = List.sort (fun (a, _) (b, _) -> compare a b) l in
   String.concat "+"
